@@ -114,4 +114,7 @@ def isomorphic(t1, t2, budget=200000, fixed=None):
             del m[b]
         return False
 
+    if len(order) > 400:
+        # the search recurses once per blank node: graphs of this size are beyond what this oracle is meant for (inconclusive)
+        raise IsoBudget()
     return search(0, {}, set())
